@@ -1,4 +1,4 @@
 ------------------------------- MODULE MC_Syncer ------------------------------
 EXTENDS Syncer, TLC
-View == <<stored, pruned, foreign, sampled, now, netHead, peers, trusted, phase, subj, ongoing, hsub, sawPeer, lastFetch>>
+View == <<stored, pruned, foreign, sampled, now, netHead, peers, trusted, phase, subj, ongoing, hsub, sawPeer, slowH, lastFetch>>
 =============================================================================
